@@ -1,11 +1,15 @@
 import ExoVerif.Driver.Common
 import ExoVerif.Model.VotingPower
+import ExoVerif.Model.VPOracle
 /- driver for the C05 correspondence.
    ops:  vp.reset | vp.note … | vp.avs <addr> <epochId> <startingEpoch>
          vp.entry <avs> <op> <self> <total> <active> | vp.avsval <avs> <val>
          vp.optin <avs> <op> | vp.optout <avs> <op>
-         vp.block <nEv> {<id> <n>}* <nAvs> { <avs> <assetsOk> <nCfg|-1> {<asset> <price> <pdec> <adec>}*
+         vp.oracle <nTokens> { <Token.AssetID | -> <latest price | - (no round) | x (not an integer)> <decimal> }*
+                  the oracle's token table (position = token id) and latest rounds as committed before the block
+         vp.block <nEv> {<id> <n>}* <nAvs> { <avs> <assetsOk> <nAssets|-1> {<asset> <adec>}*
                   <minSelf|x> <nOps> { <op> <nAssets> {<asset> <amount> <totalShare> <operatorShare>}* }* }*
+                  the prices are resolved by the model (Model/VPOracle.lean) from the last vp.oracle
 -/
 namespace ExoVerif.Driver.VotingPower
 open ExoVerif ExoVerif.VP ExoVerif.KV ExoVerif.Driver
@@ -13,9 +17,25 @@ open ExoVerif ExoVerif.VP ExoVerif.KV ExoVerif.Driver
 structure DS where
   regs : List AvsReg
   st : St
+  orc : OracleSt
 deriving Inhabited
 
-def init : DS := { regs := [], st := { entries := [], avsVal := [] } }
+def init : DS := { regs := [], st := { entries := [], avsVal := [] }, orc := { toks := [] } }
+
+def parseToks : Nat → List String → Option (List (String × Option Round))
+  | 0, [] => some []
+  | 0, _ => none
+  | n + 1, ids :: p :: dec :: rest =>
+    let ids := if ids == "-" then "" else ids
+    match parseInt? dec, parseToks n rest with
+    | some dec, some l =>
+      if p == "-" then some ((ids, none) :: l)
+      else if p == "x" then some ((ids, some { price := none, decimal := dec }) :: l)
+      else match parseInt? p with
+        | some v => some ((ids, some { price := some v, decimal := dec }) :: l)
+        | none => none
+    | _, _ => none
+  | _, _ => none
 
 def insertBy (x : String × String) : List (String × String) → List (String × String)
   | [] => [x]
@@ -37,12 +57,12 @@ def parseEvs : Nat → List String → Option (List (String × Int) × List Stri
     | _, _ => none
   | _, _ => none
 
-def parseCfgs : Nat → List String → Option (List (String × AssetCfg) × List String)
+def parseDecs : Nat → List String → Option (List (String × Int) × List String)
   | 0, w => some ([], w)
-  | n + 1, a :: p :: pd :: ad :: rest =>
-    match parseInt? p, parseInt? pd, parseInt? ad, parseCfgs n rest with
-    | some p, some pd, some ad, some (l, r) => some ((a, { price := p, priceDec := pd, decimals := ad }) :: l, r)
-    | _, _, _, _ => none
+  | n + 1, a :: ad :: rest =>
+    match parseInt? ad, parseDecs n rest with
+    | some ad, some (l, r) => some ((a, ad) :: l, r)
+    | _, _ => none
   | _, _ => none
 
 def parseAssets : Nat → List String → Option (List (String × AssetState) × List String)
@@ -68,26 +88,26 @@ def parseOps : Nat → List String → Option (List (String × List (String × A
     | none => none
   | _, _ => none
 
-def parseAvsIns : Nat → List String → Option (List (String × AvsIn))
+def parseAvsIns (o : OracleSt) : Nat → List String → Option (List (String × AvsIn))
   | 0, [] => some []
   | 0, _ => none
   | n + 1, avs :: ok :: ncfg :: rest =>
-    let cfgsR : Option (Option (List (String × AssetCfg)) × List String) :=
+    let cfgsR : Option (Option (List (String × Int)) × List String) :=
       if ncfg == "-1" then some (none, rest)
       else match parseNat? ncfg with
-        | some k => match parseCfgs k rest with
+        | some k => match parseDecs k rest with
           | some (l, r) => some (some l, r)
           | none => none
         | none => none
     match cfgsR with
-    | some (cfgs, ms :: nops :: r) =>
+    | some (assets, ms :: nops :: r) =>
       let minSelf : Option Int := if ms == "x" then none else parseInt? ms
       match parseNat? nops with
       | some nops =>
         match parseOps nops r with
         | some (ops, r') =>
-          match parseAvsIns n r' with
-          | some l => some ((avs, { assetsOk := ok == "1", cfgs := cfgs, minSelf := minSelf, opAssets := ops }) :: l)
+          match parseAvsIns o n r' with
+          | some l => some ((avs, avsInOf o (ok == "1") assets minSelf ops) :: l)
           | none => none
         | none => none
       | none => none
@@ -114,6 +134,13 @@ def step (d : DS) (w : List String) : DS × String :=
     | none => (d, "bad-op")
   | ["vp.optin", avs, op] => ({ d with st := optIn d.st avs op }, "ok")
   | ["vp.optout", avs, op] => ({ d with st := optOut d.st avs op }, "ok")
+  | "vp.oracle" :: n :: rest =>
+    match parseNat? n with
+    | some n =>
+      match parseToks n rest with
+      | some toks => ({ d with orc := { toks := toks } }, "ok")
+      | none => (d, "bad-op")
+    | none => (d, "bad-op")
   | "vp.block" :: nev :: rest =>
     match parseNat? nev with
     | some nev =>
@@ -121,7 +148,7 @@ def step (d : DS) (w : List String) : DS × String :=
       | some (evs, navs :: r) =>
         match parseNat? navs with
         | some navs =>
-          match parseAvsIns navs r with
+          match parseAvsIns d.orc navs r with
           | some ins =>
             let st' := evs.foldl (fun s (id, n) => epochEnd d.regs ins s id n) d.st
             ({ d with st := st' }, showSt st')
